@@ -418,6 +418,9 @@ pub fn gen_model(rng: &mut Rng, o: char, v: char, c: char) -> QpModel {
         .map(|_| {
             if rng.chance(1, 3) {
                 0.0
+            } else if rng.chance(1, 16) {
+                // non-zero coefficients far below f64::EPSILON are coefficients like any other
+                *rng.pick(&[1e-18, -1e-18, 5e-324, 2e-16, -1.5e-17, 1e-100])
             } else if infinity < 1e6 && rng.chance(1, 30) {
                 // coefficients are not subject to the infinity value
                 20000.0
@@ -443,7 +446,13 @@ pub fn gen_model(rng: &mut Rng, o: char, v: char, c: char) -> QpModel {
             }
             for j in 1..=n {
                 if rng.chance(1, 2) {
-                    let val = if rng.chance(1, 30) { 0.0 } else { quarter(rng, 16) };
+                    let val = if rng.chance(1, 30) {
+                        0.0
+                    } else if rng.chance(1, 30) {
+                        *rng.pick(&[1e-18, -1e-18, 5e-324, 2e-16, -1.5e-17, 1e-100])
+                    } else {
+                        quarter(rng, 16)
+                    };
                     bi_entries.push((r, j, val));
                 }
             }
@@ -458,7 +467,14 @@ pub fn gen_model(rng: &mut Rng, o: char, v: char, c: char) -> QpModel {
     let mut cl_vals = vec![];
     let mut cu_vals = vec![];
     for _ in 0..m {
-        let (lo, up) = match rng.below(10) {
+        // one row in 16 writes an infinite side with the unusual sign: by the magnitude rule
+        // c_l = +infinity or c_u = -infinity also mean "no such side"
+        let (lo, up) = match if rng.chance(1, 16) { 10 + rng.below(5) } else { rng.below(10) } {
+            10 => (infinite_value(rng, infinity), finite_side(rng, infinity)),
+            11 => (finite_side(rng, infinity), -infinite_value(rng, infinity)),
+            12 => (infinite_value(rng, infinity), infinite_value(rng, infinity)),
+            13 => (-infinite_value(rng, infinity), -infinite_value(rng, infinity)),
+            14 => (infinite_value(rng, infinity), -infinite_value(rng, infinity)),
             0..=2 => {
                 let a = finite_side(rng, infinity);
                 let mut b = finite_side(rng, infinity);
@@ -509,7 +525,11 @@ pub fn gen_model(rng: &mut Rng, o: char, v: char, c: char) -> QpModel {
                     1 => -infinite_value(rng, infinity),
                     _ => finite_side(rng, infinity),
                 };
-                let up = if lo.abs() >= infinity {
+                // one variable in 16: an infinite bound with the unusual sign (also "unbounded")
+                let lo = if rng.chance(1, 32) { infinite_value(rng, infinity) } else { lo };
+                let up = if rng.chance(1, 32) {
+                    -infinite_value(rng, infinity)
+                } else if lo.abs() >= infinity {
                     if rng.bool() {
                         infinite_value(rng, infinity)
                     } else {
@@ -538,7 +558,12 @@ pub fn gen_model(rng: &mut Rng, o: char, v: char, c: char) -> QpModel {
                 3 => (0.0, 0.0),
                 4 => (-infinite_value(rng, infinity), rng.range(-3, 6) as f64),
                 5 => (rng.range(-3, 6) as f64, infinite_value(rng, infinity)),
-                6 => (-infinite_value(rng, infinity), infinite_value(rng, infinity)),
+                6 => match rng.below(8) {
+                    0 => (infinite_value(rng, infinity), rng.range(-3, 6) as f64),
+                    1 => (rng.range(-3, 6) as f64, -infinite_value(rng, infinity)),
+                    2 => (infinite_value(rng, infinity), -infinite_value(rng, infinity)),
+                    _ => (-infinite_value(rng, infinity), infinite_value(rng, infinity)),
+                },
                 7 => {
                     // fractional bounds with at least one integer between them
                     let a = rng.range(-4, 4) as f64;
@@ -756,15 +781,16 @@ impl Layout {
     }
 }
 
-/// decimal text of a value; every value of the model is either a multiple of 1/4 below 1e6 or
-/// one of the large infinity markers, so each style denotes the value exactly (or, for 1e30
+/// decimal text of a value; every value of the model is either a multiple of 1/4 below 1e6, a tiny
+/// coefficient (written in shortest round-trip exponent form) or one of the large infinity markers, so each style denotes the value exactly (or, for 1e30
 /// and its multiples, rounds to it)
 pub fn fmt_num(rng: &mut Rng, v: f64) -> String {
     assert!(v.is_finite(), "harness: non-finite value in the QP model");
     if v == 0.0 {
         return rng.pick(&["0", "0.0", "0.00", "0.0E+00", "0e0"]).to_string();
     }
-    let big = v.abs() >= 1e15;
+    // plain decimal styles only where they are exact: not for the huge markers, not for tiny coefficients
+    let big = v.abs() >= 1e15 || v.abs() < 1e-3;
     let fortran = |v: f64| -> String {
         let s = format!("{:e}", v);
         let (mant, exp) = s.split_once('e').expect("exponent");
